@@ -58,6 +58,24 @@ CHECKS = {
         text="(a) Non-STL byte_array (library rebuilt with -DASCON_NO_STL): a pool of up to 6 variables goes through seeded histories of construct/copy/assign(self)/index/data()/resize/reserve/push/pop/clear/compare/iterate/destroy; after every operation every variable must equal its std::vector mirror (this exposes aliasing through the shared reference-counted buffer), comparisons must agree with std::vector, an allocation failure injected at the k-th allocation inside an operation must surface as std::bad_alloc without disturbing the other variables, and no block may stay allocated. (b) Hex codec and C++ helpers: texts from a grammar with whitespace, illegal characters (inserted or replacing a digit so parity varies), odd counts, NUL and high bytes, with exact/short/zero/larger capacities and guard bytes, against a 20-line reference decoder; encode-decode identity. Part (b) is model-based input sampling and is labelled so.",
         note="Trusted: std::vector as the value-semantics reference; the reference decoder; replaceable global operator new as the allocation seam.",
         design="§3 W6, §4 C20"),
+    "C09": dict(
+        technique="deterministic simulation replayed across build configurations: the same seeded plans (worlds stream, channel, prng, keystore, cppobj, bytes) are executed in every backend/share build and their history digests must be identical; the acquire/release checker build runs the same interleaved multi-object histories",
+        category="exploration",
+        text="Because a run is a pure function of its plan, 'same seed => same history digest' is an equality that can be checked across builds. Quick: 10 configurations (5 permutation backends at the default shares + 5 share combinations spread over asm/c64/c32) x 6 worlds, ~50k plans per configuration, every digest compared with the reference build; thorough: 5 backends + all 27 share combinations on asm, c64 and c32. A divergence is confirmed in fresh processes and minimised while the two builds still disagree. Second part: the worlds (interleaved histories on several live objects, incl. masked code) run on the CHECK_ACQUIRE_RELEASE build for several share settings; the library's own abort() is the violation.",
+        note="Trusted: plan generators are configuration independent (world masked is excluded from the differential part for that reason); digests contain outputs/statuses only. A function that is wrong in the same way in every configuration is not detected here (C01/C03/.. are not claimed).",
+        design="§4 C09"),
+    "C12": dict(
+        technique="deterministic simulation re-executed under ASan+UBSan with poisoned canaries, exact-size buffers, guard pages for assembly code, null pointers for empty inputs and hostile argument vectors, over backend/share configurations",
+        category="exploration",
+        text="All worlds (network, entropy/storage faults, object histories, masked tapes, C++ life cycles, byte_array with allocation faults, the tools in the simulated OS with hostile argv/files) are re-run in a gcc -fsanitize=address,undefined -fno-sanitize-recover build of the library, the C++ wrappers and the tools, over asm/c64/c32/direct-xor (quick) or 14 backend x share combinations incl. MAX_SHARES 2 and 3 (thorough). Every output buffer is exact-size at a seeded misalignment with ASan-poisoned canaries; a quarter of the runs place buffers against PROT_NONE pages so that uninstrumentable assembly is covered. Only sanitizer reports, guard faults, crashes and canary damage count.",
+        note="Trusted: ASan/UBSan of gcc 12; assembly code is covered only by guard pages/canaries; functional mismatches are deliberately ignored here.",
+        design="§4 C12"),
+    "C13": dict(
+        technique="deterministic simulation with twin-secret executions: every plan runs twice in one process with different keys, messages, fed entropy and entropy tape; object bytes after free/clear()/destructor must be identical; release (-O3) build",
+        category="exploration",
+        text="The histories of worlds stream, channel, prng, keystore and cppobj (every object type named in the property, at arbitrary points of its life incl. mid-stream free, re-init, copies, failed decrypts) are executed twice with the same plan and schedule but different secrets; after every free, clear() or destructor the raw bytes of the object are compared between the two executions. C++ objects are placement-constructed in harness-owned storage so their bytes stay readable. Built with the exact release flags (-O3) of the shipped library, on asm and c32 (quick) or all five backends (thorough).",
+        note="Trusted: the twin construction (only dependence on secrets is flagged, constant residue is allowed); stack residue is out of scope (the statement is about the bytes of the object).",
+        design="§4 C13"),
     "C10": dict(
         technique="deterministic simulation: masked word/state/key/AEAD operation histories with the random source replaced at link time by simulator-controlled tapes (zero, ones, constant, periodic, counter, random, adversarial), over share-count x backend configurations",
         category="exploration",
